@@ -19,8 +19,13 @@ ENC_OK = sockrun.ENC_OK if hasattr(sockrun, "ENC_OK") else 0
 def scripts(rng: random.Random, n: int):
     for _ in range(n):
         s = [("open",), ("adv", 1)]
-        mode = rng.randrange(13)
-        if mode == 12:
+        mode = rng.randrange(14)
+        if mode == 13:
+            # a connection subscriber reacts to the disconnected notification that close() itself issues by sending:
+            # the client is no longer open - refused, nothing held, nothing written after a re-open
+            s.append(("subsenddown", rng.choice([0, 1, 4]), rng.choice([0, 1, 3])))
+            s += [("close",), ("adv", 5), ("open",), ("adv", 5), ("send", rng.choice([0, 1, 4]), 0), ("adv", 50)]
+        elif mode == 12:
             # the caller of a send() whose write has just failed gives up (time-out / cancellation) while the client is
             # resetting the link: the idempotent message must still be re-sent on the next connection
             s += [("cancelclose",), ("failw",), ("send", rng.choice([0, 1, 4]), rng.choice([0, 0, 3])),
@@ -115,6 +120,7 @@ def monitor(gen: int, script, out, pid0: int) -> list[str]:
     sub_send = None
     resend, lost_at, after_loss = set(), None, Counter()
     resend_next = False
+    down_send = None
     for idx, (st, evs) in enumerate(zip(script, out)):
         sends = []
         if st[0] == "send":
@@ -126,6 +132,9 @@ def monitor(gen: int, script, out, pid0: int) -> list[str]:
             continue
         elif st[0] == "subsend":
             sub_send = (st[1], st[2]) if st[1] >= 0 else None
+            continue
+        elif st[0] == "subsenddown":
+            down_send = (st[1], st[2])
             continue
         elif st[0] == "cancelsends":
             must_write_from = order           # whatever is accepted from now on must reach the wire
@@ -139,6 +148,16 @@ def monitor(gen: int, script, out, pid0: int) -> list[str]:
             resend |= {pid for pid in acc if pid not in written and retries_of.get(pid, 0) >= 1}
             lost_at = idx
             continue
+        if down_send is not None and any(e[0] == "downsend" for e in evs):
+            if st[0] == "close":
+                if ("senderr", 2) not in [tuple(e) for e in evs]:
+                    bad.append(f"step {idx}: a send() issued from the disconnected notification of close() was not refused as not-open")
+                    sends = [down_send] + sends
+                elif cls[down_send[0]] != 1:
+                    next_pid = (next_pid + 1) % 256
+            else:
+                sends = [down_send] + sends
+            down_send = None
         if sub_send is not None and any(e[0] == "open" for e in evs):
             sends = sends + [sub_send]          # the subscriber's send inside the connected notification
         if pending_close is not None and any(e[0] == "hooksend" for e in evs):
@@ -370,7 +389,7 @@ def teardown_model_compare(gen: int, script, out, pid0: int):
 
 
 def run(ck: common.Check, prop: str, tier: str) -> None:
-    rng = random.Random(ck.seed * 613 + {"C01": 1, "C02": 2}.get(prop, 3))
+    rng = random.Random(ck.seed * 613 + {"C01": 1, "C02": 2, "C15": 4}.get(prop, 3))
     n = 0
     nmodel_bad = 0
     for gen in (4, 5):
@@ -399,7 +418,10 @@ def run(ck: common.Check, prop: str, tier: str) -> None:
                 nmodel_bad += 1
             else:
                 ck.extra["backpressure_queue_model_agreements"] = ck.extra.get("backpressure_queue_model_agreements", 0) + 1
-            if prop == "C16":
+            if prop == "C15":
+                # a send on a client that is being / has been closed is refused and never reaches the wire
+                bad = [b for b in bad if "not-open" in b or "no accepted send produced" in b]
+            elif prop == "C16":
                 # expired entries are never transmitted; a send on a closing client is refused and holds nothing
                 bad = [b for b in bad if "lifetime ended" in b or "not-open" in b or "no accepted send produced" in b]
             elif prop == "C01":
